@@ -32,6 +32,19 @@ Theorem C15_route_pointwise : forall m n d calls,
 Proof. exact route_pointwise_lemma. Qed.
 Print Assumptions C15_route_pointwise.
 
+(** Routing is a function of the current call's dictionary only: in any
+    sequence of transfers on one front-end object, whatever was transferred
+    before ([pre]) or is transferred after ([post]), the calls of a transfer
+    are [route] of its own mode, part count and dictionary -- in particular a
+    transfer with no extra arguments sends none, whatever an earlier transfer
+    was given.  ([route] has no other input; that the implementation carries
+    no state between transfers through the caller's copy_source / extra_args /
+    subscribers objects is what the sequence stream of the tie checks.) *)
+Theorem C15_routing_depends_on_current_call_only : forall pre post m n d,
+  nth_error (route_seq (pre ++ (m, n, d) :: post)) (List.length pre) = Some (route m n d).
+Proof. exact route_seq_local. Qed.
+Print Assumptions C15_routing_depends_on_current_call_only.
+
 (** The finite table, TransferManager and process pool: for every mode, every
     operation of the mode, every allowed name and every summary, the slots the
     code feeds from the user's argument ([forwarded], read off [cell]) are
